@@ -47,6 +47,7 @@ inductive Action
   | restartIn (d : Nat)              -- `current().shutdow_and_restart_in(d)`
   | restartAt (t : Nat)              -- `current().shutdow_and_restart_at(t)`
   | panic
+  | rpanic                           -- panics iff the module has been reset before (`reset()` counts)
   | log (n : Nat)
 deriving Repr, DecidableEq
 
@@ -128,7 +129,7 @@ structure ModRt where
   nextWakeup : Option Nat              -- `Driver::next_wakeup`; `none` = `SimTime::MAX`
   joinPanics : Nat                     -- `try_join` handles whose task panicked
   nextSerial : Nat                     -- the harness's per-sender message counter
-  incarnation : Nat                    -- ghost: number of `reset` calls
+  incarnation : Nat                    -- number of `reset` calls (the scripted module counts them)
 
 /-- serial numbers are `sender * 4096 + counter` (16 bits in the harness) -/
 def serialOf (mi n : Nat) : Nat := mi * 4096 + n
@@ -139,6 +140,7 @@ structure Env where
   now : Nat
   links : List Link
   active : List Bool                   -- `is_active()` of every module
+  inc : Nat                            -- how often the running module has been reset
 
 def Env.isActive (e : Env) (o : Nat) : Bool := e.active.getD o false
 
@@ -222,6 +224,11 @@ def runAction (env : Env) (inTask : Bool) (join : Bool) (es : ES) : Action → E
   | .panic =>
     ({ es with obs := es.obs ++ [(⟨env.mi, .pan, some (if inTask then 1 else 0),
                                    some (if join then 1 else 0), env.now⟩ : Obs)] }, true)
+  | .rpanic =>
+    if env.inc = 0 then (es, false)
+    else
+      ({ es with obs := es.obs ++ [(⟨env.mi, .pan, some (if inTask then 1 else 0),
+                                     some (if join then 1 else 0), env.now⟩ : Obs)] }, true)
   | .log n => ({ es with obs := es.obs ++ [(⟨env.mi, .log, some n, none, env.now⟩ : Obs)] }, false)
 
 /-- a callback / task body: the actions in order, cut off by a panic -/
@@ -368,7 +375,8 @@ structure State where
 def State.actives (s : State) : List Bool := s.mods.map (·.active)
 
 def State.env (s : State) (mi : Nat) : Env :=
-  { mi := mi, now := s.fes.cur, links := s.links, active := s.actives }
+  { mi := mi, now := s.fes.cur, links := s.links, active := s.actives,
+    inc := ((s.mods[mi]?).map (·.incarnation)).getD 0 }
 
 /-- `Runtime::add_event` -/
 def State.schedule (s : State) (ev : KEvent) (t : Nat) : State :=
